@@ -80,7 +80,18 @@ func vhFieldValid(f Field) bool {
 }
 
 func vhSplitTarget(target int, fields Fields) ([]BuilderRequest, error) {
+	return vhCallTarget(NewRequestBuilder("", 0).AddAll(fields), target)
+}
+
+// vhSplitTargetAfter: the same builder is first asked for the requests of the OTHER kind (coils <-> registers), then
+// for the target's: what the first call did to the builder must not show in the second.
+func vhSplitTargetAfter(target int, fields Fields) ([]BuilderRequest, error) {
 	b := NewRequestBuilder("", 0).AddAll(fields)
+	vhCallTarget(b, (target+4)%8)
+	return vhCallTarget(b, target)
+}
+
+func vhCallTarget(b *Builder, target int) ([]BuilderRequest, error) {
 	switch target {
 	case 0:
 		return b.ReadCoilsTCP()
@@ -119,7 +130,13 @@ func VH_C06_batches() {
 	for i := 0; i < k; i++ {
 		fields = append(fields, vhField(i, classes[i]))
 	}
-	reqs, err := vhSplitTarget(target, fields)
+	var reqs []BuilderRequest
+	var err error
+	if vndParam("pre") == 1 {
+		reqs, err = vhSplitTargetAfter(target, fields)
+	} else {
+		reqs, err = vhSplitTarget(target, fields)
+	}
 	if err != nil {
 		vndCover("builder-error")
 		// the statement allows an error; an error for a list of valid fields whose spans all fit the address space
